@@ -110,3 +110,91 @@ Example C18_example_generated :
   option_map snd (match NewKeyValIterator (Some [0; 2; 0; 1; 97; 0; 1; 98; 0; 1; 99; 0]) with
                   | Some (it, _) => KeyValIterator_Next it | None => None end) = Some e_typed_ErrEOF.
 Proof. split; vm_compute; reflexivity. Qed.
+
+(* ======================================================================================
+   The per-context header slot: contexts that are used for SEVERAL calls.
+   A ContextWithHeaders points to one container {request headers, response headers}
+   (context_header.go); thrift client.Call, json Client.Call and json wrapCall store the
+   response headers of a finished call there.  Spec/HdrPath.v says what a sequence of
+   WithHeaders / Child / back-to-parent / call operations must show (an answered call leaves
+   exactly ITS handler's response headers, empty included, and the handler sees exactly the
+   request headers attached last); Model/HdrSlot.v is the code: request and response headers
+   through WriteHeaders / ReadHeaders of the thrift codec above, then the clients' statement
+   sequences after the retry loop.  hmap_ok h: h is within the 16-bit limits and in canonical
+   form (sorted, distinct keys); [] stands for nil and for the empty map.
+   ====================================================================================== *)
+From Verif Require Import Base.Wire Spec.HdrPath Model.HdrSlot Proofs.HdrSlotP Gen.GenHdrPath.
+
+(* a header map survives WriteHeaders -> ReadHeaders -> EnsureEmpty -> map *)
+Theorem C18_ctx_wire : forall h, hmap_ok h -> thrift_wire h = Some h.
+Proof. exact thrift_wire_ok. Qed.
+
+(* for EVERY sequence of operations the model observes exactly what the specification says *)
+Theorem C18_ctx_model_is_spec : forall ops, Forall hop_ok ops -> hrun_obs hinit ops = spec_run sinit ops.
+Proof. exact hrun_obs_init_spec. Qed.
+(* ... hence the harness entry point `hdrseq` computes the specified observation: an
+   implementation that disagrees with it on a generated case violates the specification there *)
+Theorem C18_ctx_run_is_spec : forall c, Forall hop_ok (fst (take_list take_hop c)) ->
+  run_hdrseq c = flat_map put_hobs (spec_run sinit (fst (take_list take_hop c))).
+Proof. exact run_hdrseq_spec. Qed.
+
+(* an answered call (handler outcome ok / application error) after ANY earlier operations `pre`
+   on the same contexts: the handler saw exactly the current request headers, the caller got the
+   handler's outcome, and afterwards the context's response headers are exactly `resp` -- the
+   ones THIS handler set, nothing of what earlier calls left *)
+Theorem C18_ctx_call_exact : forall pre kind outcome resp,
+  Forall hop_ok pre -> hmap_ok resp -> answered outcome = true ->
+  let c := fst (hfinal hinit pre) in
+  last_obs (hrun_obs hinit (pre ++ [HCall kind outcome resp])) =
+  (Some (mkCallObs outcome true (ctx_headers c)), ctx_headers c, resp).
+Proof. exact model_call_exact. Qed.
+
+(* history independence: if the CALLER did the same things in two histories (same WithHeaders /
+   Child / back-to-parent operations), then whatever calls were made in between, with whatever
+   outcomes and response headers, the next answered call shows the same *)
+Theorem C18_ctx_history_independent : forall pre1 pre2 kind outcome resp,
+  Forall hop_ok pre1 -> Forall hop_ok pre2 -> hmap_ok resp -> answered outcome = true ->
+  caller_ops pre1 = caller_ops pre2 ->
+  last_obs (hrun_obs hinit (pre1 ++ [HCall kind outcome resp])) =
+  last_obs (hrun_obs hinit (pre2 ++ [HCall kind outcome resp])).
+Proof. exact model_history_independent. Qed.
+
+(* REGENERATED from the source on every run (go2v statement targets with `After`, Gen/GenHdrPath.v)
+   and proved equal to the model: the statements of thrift client.Call after RunWithRetry, of json
+   Client.Call after RunWithRetry and of json wrapCall after makeCall (`ctx.SetResponseHeaders(
+   respHeaders)` is `let slot := respHeaders`: an answered call stores unconditionally, a failed
+   call does not touch the slot), and the slot itself: headerCtx.Headers / ResponseHeaders /
+   SetResponseHeaders (replaces; panics without a container) / Child (copy), WrapWithHeaders
+   (fresh container without response headers).  Guarding, dropping, moving or merging the store
+   breaks this theorem. *)
+Theorem C18_ctx_generated :
+  (forall slot has_err respHeaders isOK,
+     thriftCallTail slot has_err respHeaders isOK = thrift_call_tail slot has_err respHeaders isOK) /\
+  (forall slot has_err respHeaders isOK,
+     jsonCallTail slot has_err respHeaders isOK = json_call_tail slot has_err respHeaders isOK) /\
+  (forall slot has_err respHeaders isOK,
+     jsonWrapCallTail slot has_err respHeaders isOK = json_call_tail slot has_err respHeaders isOK) /\
+  (forall c, ctxHeaders true (s_req c) (s_resp c) = ctx_headers c) /\
+  (forall c, ctxResponseHeaders true (s_req c) (s_resp c) = ctx_resp_headers c) /\
+  (forall c h, ctxSetResponseHeaders true (s_req c) (s_resp c) h = Some (s_resp (ctx_set_resp c h))) /\
+  (forall c h, ctxSetResponseHeaders false (s_req c) (s_resp c) h = None) /\
+  (forall h, ctxWrapWithHeaders h = (s_req (ctx_with_headers h), s_resp (ctx_with_headers h))) /\
+  (forall c, ctxChild true (s_req c) (s_resp c) = (s_req (ctx_child c), s_resp (ctx_child c))).
+Proof. exact hdrslot_generated. Qed.
+
+Print Assumptions C18_ctx_model_is_spec.
+Print Assumptions C18_ctx_call_exact.
+Print Assumptions C18_ctx_history_independent.
+Print Assumptions C18_ctx_generated.
+
+(* non-vacuity: hmap_ok is satisfiable; the seed's scenario -- a thrift call whose handler sets
+   two headers, then on the same context a call whose handler sets none -- ends with NO response
+   headers, through the real codec model *)
+Example C18_example_hmap_ok : hmap_ok [([97], [1; 2]); ([98], [])].
+Proof. split; [split; [vm_compute; discriminate | repeat constructor; vm_compute; try discriminate; reflexivity] | vm_compute; reflexivity]. Qed.
+Example C18_example_ctx_reuse :
+  last_obs (hrun_obs hinit [HWith [([114], [113])]; HCall 0 0 [([97], [1; 2]); ([98], [])]; HCall 0 0 []]) =
+  (Some (mkCallObs 0 true [([114], [113])]), [([114], [113])], []) /\
+  last_obs (hrun_obs hinit [HWith [([114], [113])]; HCall 1 0 [([97], [1; 2])]; HCall 2 1 []]) =
+  (Some (mkCallObs 1 true [([114], [113])]), [([114], [113])], []).
+Proof. split; vm_compute; reflexivity. Qed.
